@@ -4,6 +4,7 @@ mod alloc_track;
 mod genr;
 mod ops;
 mod types;
+mod droppanic;
 mod world;
 
 use std::io::{BufRead, Write};
@@ -71,6 +72,11 @@ fn main() {
                 emit(format!("#done gen-{seed}-{s}"));
             }
             for c in genr::cells_report() { emit(format!("#cell {c}")); }
+            return;
+        }
+        "droppanic" => {
+            drop(out);
+            droppanic::run_all();
             return;
         }
         "run" => {
